@@ -345,6 +345,18 @@ func (r *refState) class() string {
 			return "stale-request"
 		}
 	}
+	// replace-requests: a callback that carries a request of its own and is named by another callback has been
+	// Replaced (the plain copy takes over the name in the sorter's name table)
+	for _, x := range r.live {
+		if x.Hid == x.Reg || (x.Before == "" && x.After == "") {
+			continue
+		}
+		for _, c := range r.live {
+			if c.Name != x.Name && (c.Before == x.Name || c.After == x.Name) {
+				return "replace-requests"
+			}
+		}
+	}
 	if selfT {
 		return "self-target"
 	}
@@ -356,11 +368,11 @@ func (r *refState) class() string {
 
 // classCode: the constructor number of C17_Known.kclass
 var classCode = map[string]int{"": 0, "self-target": 1, "named-cycle": 2, "star-unsat": 3, "star-replace": 4,
-	"after-overwritten": 5, "self-target-silent": 6, "stale-request": 7}
+	"after-overwritten": 5, "self-target-silent": 6, "stale-request": 7, "replace-requests": 8}
 
 // star-replace (fixed by /repo e28c215) and self-target (fixed by 591f9f1) are labels only
 var knownClass = map[string]bool{"self-target-silent": true, "named-cycle": true, "star-unsat": true,
-	"after-overwritten": true, "stale-request": true}
+	"after-overwritten": true, "stale-request": true, "replace-requests": true}
 
 // sigOf: the class of the first in-domain step of the history whose state is in a KNOWN class ("" = none);
 // computed from the input only (twin of C17_CheckK.first_known).  Also returns the distinct classes and
